@@ -2359,6 +2359,18 @@ private:
 
       SVectorBase<R>& vec = rowVector_w(idx);
 
+      // create new columns if required, before their scaling exponents are read
+      for(int j = 0; j < vec.size(); ++j)
+      {
+         if(vec.index(j) >= nCols())
+         {
+            LPColBase<R> empty;
+
+            for(int k = nCols(); k <= vec.index(j); ++k)
+               LPColSetBase<R>::add(empty);
+         }
+      }
+
       DataArray <int>& colscaleExp = LPColSetBase<R>::scaleExp;
 
       // compute new row scaling factor and apply it to the sides
@@ -2414,6 +2426,18 @@ private:
       int newRowScaleExp = 0;
 
       LPRowSetBase<R>::add(lhsValue, rowVec, rhsValue);
+
+      // create new columns if required, before their scaling exponents are read
+      for(int j = 0; j < rowVec.size(); ++j)
+      {
+         if(rowVec.index(j) >= nCols())
+         {
+            LPColBase<R> empty;
+
+            for(int k = nCols(); k <= rowVec.index(j); ++k)
+               LPColSetBase<R>::add(empty);
+         }
+      }
 
       DataArray <int>& colscaleExp = LPColSetBase<R>::scaleExp;
 
@@ -2592,6 +2616,18 @@ private:
 
       SVectorBase<R>& vec = colVector_w(idx);
 
+      // create new rows if required, before their scaling exponents are read
+      for(int j = 0; j < vec.size(); ++j)
+      {
+         if(vec.index(j) >= nRows())
+         {
+            LPRowBase<R> empty;
+
+            for(int k = nRows(); k <= vec.index(j); ++k)
+               LPRowSetBase<R>::add(empty);
+         }
+      }
+
       DataArray <int>& rowscaleExp = LPRowSetBase<R>::scaleExp;
 
       // compute new column scaling factor and apply it to the bounds
@@ -2650,6 +2686,18 @@ private:
 
       if(thesense != MAXIMIZE)
          LPColSetBase<R>::maxObj_w(idx) *= -1;
+
+      // create new rows if required, before their scaling exponents are read
+      for(int j = 0; j < colVec.size(); ++j)
+      {
+         if(colVec.index(j) >= nRows())
+         {
+            LPRowBase<R> empty;
+
+            for(int k = nRows(); k <= colVec.index(j); ++k)
+               LPRowSetBase<R>::add(empty);
+         }
+      }
 
       DataArray <int>& rowscaleExp = LPRowSetBase<R>::scaleExp;
 
